@@ -1,4 +1,135 @@
+/-
+  C14 — tagged forms carry exactly the structure's registered CBOR tag.
+-/
+import CosetProofs.Cbor.ParseAppend
 import CosetModel.Api
 namespace Coset.Props.C14
+open Coset Coset.Cbor
+
+/-- the six tags are the registered ones (RFC 8152 table 1), regenerated from the source on every run. -/
+theorem tags : Gen.TAG_CoseSign = 98 ∧ Gen.TAG_CoseSign1 = 18 ∧ Gen.TAG_CoseEncrypt = 96 ∧ Gen.TAG_CoseEncrypt0 = 16 ∧
+    Gen.TAG_CoseMac = 97 ∧ Gen.TAG_CoseMac0 = 17 := by decide
+
+theorem tags_distinct : [Gen.TAG_CoseSign, Gen.TAG_CoseSign1, Gen.TAG_CoseEncrypt, Gen.TAG_CoseEncrypt0, Gen.TAG_CoseMac, Gen.TAG_CoseMac0].Nodup := by
+  decide
+
+/-- tagged encoding = the deterministic head of the tag, then the untagged encoding. -/
+theorem encode {α : Type} (tag : Nat) (toV : α → Res Value) (x : α) :
+    toTaggedVec tag toV x = (toVec toV x).map (fun b => encHead 6 tag ++ b) := by
+  unfold toTaggedVec toVec
+  cases toV x <;> simp [Res.map, enc]
+
+/-- every well-formed head for tag number `t`: shortest or any wider form. -/
+inductive TagHead (t : Nat) : Bytes → Prop where
+  | tiny (h : t < 24) : TagHead t [UInt8.ofNat (6 * 32 + t)]
+  | w1 (h : t < 256) : TagHead t (UInt8.ofNat (6 * 32 + 24) :: beN 1 t)
+  | w2 (h : t < 65536) : TagHead t (UInt8.ofNat (6 * 32 + 25) :: beN 2 t)
+  | w4 (h : t < 4294967296) : TagHead t (UInt8.ofNat (6 * 32 + 26) :: beN 4 t)
+  | w8 (h : t < 18446744073709551616) : TagHead t (UInt8.ofNat (6 * 32 + 27) :: beN 8 t)
+
+theorem pull_tagHead (t : Nat) (h : Bytes) (hh : TagHead t h) (b : Bytes) : pull (h ++ b) = some (.tag t, b) := by
+  cases hh with
+  | tiny ht => exact pull_of_arg _ 6 t (by decide) (by simp [UInt8.toNat_ofNat'] <;> omega) (by simp [UInt8.toNat_ofNat'] <;> omega) _ _ t 0 (pullArg_lt24 t ht b)
+  | w1 ht => exact pull_of_arg _ 6 24 (by decide) (by decide) (by decide) _ _ t 1 (pullArg_wide 24 1 t (by simp) (by omega) b)
+  | w2 ht => exact pull_of_arg _ 6 25 (by decide) (by decide) (by decide) _ _ t 2 (pullArg_wide 25 2 t (by simp) (by omega) b)
+  | w4 ht => exact pull_of_arg _ 6 26 (by decide) (by decide) (by decide) _ _ t 4 (pullArg_wide 26 4 t (by simp) (by omega) b)
+  | w8 ht => exact pull_of_arg _ 6 27 (by decide) (by decide) (by decide) _ _ t 8 (pullArg_wide 27 8 t (by simp) (by omega) b)
+
+theorem tagHead_length_pos (t : Nat) (h : Bytes) (hh : TagHead t h) : 0 < h.length := by
+  cases hh <;> simp
+
+/-- a tag head (any width, not a bignum tag) in front of a body the parser accepts within depth 255 parses to the tagged value. -/
+theorem readToValue_tagged (t : Nat) (h b : Bytes) (v : Value) (hh : TagHead t h) (h2 : t ≠ 2) (h3 : t ≠ 3)
+    (hb : parse (fuelFor b) (recursionLimit - 1) b = .ok (v, [])) : readToValue (h ++ b) = .ok (.tag t v) := by
+  have hl := tagHead_length_pos t h hh
+  obtain ⟨f, hf⟩ : ∃ f, fuelFor (h ++ b) = f + 1 := ⟨fuelFor (h ++ b) - 1, by unfold fuelFor; omega⟩
+  have hge : fuelFor b ≤ f := by unfold fuelFor at hf ⊢; simp only [List.length_append] at hf; omega
+  have hp := parse_append _ f _ (recursionLimit - 1) b [] v [] hb hge (Nat.le_refl _)
+  simp only [List.append_nil] at hp
+  unfold readToValue fromReader
+  rw [hf, parse, pull_tagHead t h hh b]
+  simp only [h2, h3, or_self, if_false]
+  have : recursionLimit ≠ 0 := by decide
+  simp only [this, if_false, hp]
+  simp
+
+/-- C14 (decode, accept direction): the registered tag applied once to a body accepted within depth 255 decodes to what the untagged decoder gives. -/
+theorem decode_tagged_eq_untagged {α : Type} (t : Nat) (conv : Value → Res α) (h b : Bytes) (v : Value)
+    (hh : TagHead t h) (h2 : t ≠ 2) (h3 : t ≠ 3) (hb : parse (fuelFor b) (recursionLimit - 1) b = .ok (v, [])) :
+    fromTaggedSlice t conv (h ++ b) = conv v ∧ fromSlice conv b = conv v := by
+  constructor
+  · unfold fromTaggedSlice
+    rw [readToValue_tagged t h b v hh h2 h3 hb]
+    simp [tryAsTag]
+  · have := parse_append _ (fuelFor b) _ recursionLimit b [] v [] hb (Nat.le_refl _) (by decide)
+    simp only [List.append_nil] at this
+    unfold fromSlice readToValue fromReader
+    rw [this]; simp
+
+/-- tagged decoding rejects every item that is not a tag, and every tag number other than the type's. -/
+theorem rejects_untagged {α : Type} (t : Nat) (conv : Value → Res α) (bs : Bytes) (v : Value)
+    (hv : readToValue bs = .ok v) (hnt : ∀ t' w, v ≠ .tag t' w) : fromTaggedSlice t conv bs = .err .unexpectedItem := by
+  unfold fromTaggedSlice
+  rw [hv]
+  cases v <;> simp_all [tryAsTag, typeError]
+
+theorem rejects_other_tag {α : Type} (t t' : Nat) (conv : Value → Res α) (bs : Bytes) (w : Value)
+    (hv : readToValue bs = .ok (.tag t' w)) (hne : t' ≠ t) : fromTaggedSlice t conv bs = .err .unexpectedItem := by
+  unfold fromTaggedSlice
+  rw [hv]
+  simp [tryAsTag, hne]
+
+/-- the six message conversions reject a tag item (so: untagged decoding rejects tagged input; a doubly tagged item is rejected). -/
+theorem conversions_reject_tags (t : Nat) (w : Value) :
+    CoseSign.fromValue (.tag t w) = .err .unexpectedItem ∧ CoseSign1.fromValue (.tag t w) = .err .unexpectedItem ∧
+    CoseEncrypt.fromValue (.tag t w) = .err .unexpectedItem ∧ CoseEncrypt0.fromValue (.tag t w) = .err .unexpectedItem ∧
+    CoseMac.fromValue (.tag t w) = .err .unexpectedItem ∧ CoseMac0.fromValue (.tag t w) = .err .unexpectedItem := by
+  simp [CoseSign.fromValue, CoseSign1.fromValue, CoseEncrypt.fromValue, CoseEncrypt0.fromValue, CoseMac.fromValue, CoseMac0.fromValue,
+    tryAsArray, typeError]
+
+theorem untagged_rejects_tagged {α : Type} (conv : Value → Res α) (hconv : ∀ t w, conv (.tag t w) = .err .unexpectedItem)
+    (bs : Bytes) (t : Nat) (w : Value) (hv : readToValue bs = .ok (.tag t w)) : fromSlice conv bs = .err .unexpectedItem := by
+  unfold fromSlice; rw [hv]; exact hconv t w
+
+theorem double_tag_rejected {α : Type} (t : Nat) (conv : Value → Res α) (hconv : ∀ t w, conv (.tag t w) = .err .unexpectedItem)
+    (bs : Bytes) (t2 : Nat) (w : Value) (hv : readToValue bs = .ok (.tag t (.tag t2 w))) :
+    fromTaggedSlice t conv bs = .err .unexpectedItem := by
+  unfold fromTaggedSlice; rw [hv]; simp [tryAsTag, hconv]
+
+/-- whatever tagged decoding accepts is a tag item with the type's tag whose content the conversion accepts. -/
+theorem decode_tagged_ok {α : Type} (t : Nat) (conv : Value → Res α) (bs : Bytes) (m : α)
+    (h : fromTaggedSlice t conv bs = .ok m) : ∃ w, readToValue bs = .ok (.tag t w) ∧ conv w = .ok m := by
+  unfold fromTaggedSlice at h
+  cases hv : readToValue bs with
+  | ok v =>
+    simp only [hv] at h
+    cases v with
+    | tag t' w =>
+      simp only [tryAsTag] at h
+      by_cases ht : t' = t
+      · subst ht; simp at h; exact ⟨w, rfl, h⟩
+      · simp [ht] at h
+    | _ => simp [tryAsTag, typeError] at h
+  | err e => simp [hv] at h
+  | panic p => simp [hv] at h
+
+/-- non-vacuity: `d2 84 40 a0 f6 40` is a tagged COSE_Sign1; with tag 17 it is rejected; untagged decoding rejects it too. -/
+example : (fromTaggedSlice Gen.TAG_CoseSign1 CoseSign1.fromValue [0xd2, 0x84, 0x40, 0xa0, 0xf6, 0x40]).isOk = true := by decide +kernel
+example : (fromTaggedSlice Gen.TAG_CoseMac0 CoseMac0.fromValue [0xd2, 0x84, 0x40, 0xa0, 0xf6, 0x40]).isOk = false := by decide +kernel
+example : (fromSlice CoseSign1.fromValue [0xd2, 0x84, 0x40, 0xa0, 0xf6, 0x40]).isOk = false := by decide +kernel
+example : TagHead 18 [0xd8, 0x12] := TagHead.w1 (by decide)
+
+#print axioms tags
+#print axioms tags_distinct
+#print axioms encode
+#print axioms pull_tagHead
+#print axioms readToValue_tagged
+#print axioms decode_tagged_eq_untagged
+#print axioms rejects_untagged
+#print axioms rejects_other_tag
+#print axioms conversions_reject_tags
+#print axioms untagged_rejects_tagged
+#print axioms double_tag_rejected
+#print axioms decode_tagged_ok
 
 end Coset.Props.C14
